@@ -100,6 +100,17 @@ type Opts struct {
 	// OnInstr is called for index / slice / make / type-assert / division
 	// instructions with their operand terms (bounds obligations); nil = off.
 	OnInstr func(x *Explorer, fn *ssa.Function, in ssa.Instruction, ops []*Term)
+	// OnInvariantFail is called when a back edge does not re-establish a
+	// candidate loop invariant (phi >= its entry lower bound) that the engine
+	// assumed at the loop head; setting it enables such candidates, and the
+	// rule must treat a call as a failed obligation.
+	OnInvariantFail func(x *Explorer, fn *ssa.Function, phi *ssa.Phi, backEdgeValue *Term)
+	// OnStore is called for every store instruction (after the memory update).
+	OnStore func(x *Explorer, fn *ssa.Function, in *ssa.Store, addr, val *Term)
+	// OnFreshLoad is called when a load yields a value the path knows nothing
+	// about (function entry state, or a cell invalidated by a call or a loop):
+	// rules use it to assume a class invariant on every such value.
+	OnFreshLoad func(x *Explorer, addr, val *Term)
 	// AfterCall is called after a non-inlined call got its result term; rules
 	// use it to assume library facts about the result (AssumeLit / AssumeGE / AssumeLE).
 	AfterCall func(x *Explorer, ev *Event)
@@ -134,6 +145,7 @@ type frame struct {
 	defers []deferred
 	prev   *ssa.BasicBlock
 	visits map[*ssa.BasicBlock]int
+	cands  map[*ssa.Phi]int64 // candidate lower-bound invariants of loop-head phis (checked at back edges)
 	depth  int
 	ret    func(results []*Term, r *ssa.Return)
 	parent *frame
@@ -169,27 +181,28 @@ type Explorer struct {
 	T    *Terms
 	Opts Opts
 
-	mem      map[int]*Term // addr term ID -> content
-	cells    map[int]*Term // addr term ID -> addr term
-	etrail   []envTrail
-	mtrail   []memTrail
-	facts    map[int]bool
-	known    map[int]*Term // term ID -> constant it is known to equal
-	bounds   map[int]bound // term ID -> interval learnt from literals
-	inOnFact bool
-	notes    map[int]*Term // rule-defined relation attached to a term (undone on backtracking)
-	depth    int           // prover recursion depth
-	ftrail   []factTrail
-	events   []Event
-	lits     []Lit
-	blocks   []*ssa.BasicBlock
-	counter  int // instance counter (calls, opaques, versions)
-	epoch    int // map epoch
-	paths    int
-	cb       func(*Path)
-	err      error
-	loops    map[*ssa.Function]*loopInfo
-	allocN   map[*ssa.Alloc]int
+	mem         map[int]*Term // addr term ID -> content
+	cells       map[int]*Term // addr term ID -> addr term
+	etrail      []envTrail
+	mtrail      []memTrail
+	facts       map[int]bool
+	known       map[int]*Term // term ID -> constant it is known to equal
+	bounds      map[int]bound // term ID -> interval learnt from literals
+	inOnFact    bool
+	inFreshLoad bool
+	notes       map[int]*Term // rule-defined relation attached to a term (undone on backtracking)
+	depth       int           // prover recursion depth
+	ftrail      []factTrail
+	events      []Event
+	lits        []Lit
+	blocks      []*ssa.BasicBlock
+	counter     int // instance counter (calls, opaques, versions)
+	epoch       int // map epoch
+	paths       int
+	cb          func(*Path)
+	err         error
+	loops       map[*ssa.Function]*loopInfo
+	allocN      map[*ssa.Alloc]int
 }
 
 func NewExplorer(p *Prog) *Explorer {
